@@ -490,6 +490,15 @@ impl<'u> Tr<'u> {
             }
             Pat::Reference(r) => self.poison_pattern(&r.pat, env, why, sp),
             Pat::Type(t) => self.poison_pattern(&t.pat, env, why, sp),
+            // a struct / tuple pattern: every name it binds (fifth round; glue family)
+            Pat::Struct(_) | Pat::TupleStruct(_) | Pat::Tuple(_) | Pat::Paren(_) if self.spec.module.is_some() => {
+                let mut names = Vec::new();
+                pat_idents(p, &mut names);
+                for n in names {
+                    env.binds.push(Bind { rust: n.clone(), coq: local_name(&n), ty: Ty::Never, poisoned: Some(why.to_owned()) });
+                }
+                Ok(())
+            }
             _ => self.err(sp, format!("pattern `{}` on something that is not translated ({why})", norm(p))),
         }
     }
@@ -1526,6 +1535,8 @@ impl<'u> Tr<'u> {
                 self.tail_value(e, env, hint)
             }
             Expr::Return(_) => self.err(sp, "`return` inside an expression that is not in tail position"),
+            // `f(..).await`: the value the future yields (glue family: used for opaque calls of async functions)
+            Expr::Await(a) if self.spec.module.is_some() => self.expr(&a.base, env, hint),
             Expr::Try(t) => {
                 // `e?` nested in the value of a `let` (see `tail_bind`): a fresh name, bound by a hoisted match
                 if self.try_slots.is_none() {
